@@ -272,3 +272,39 @@ package raft
 //@ func MustSync(st pb.HardState, prevst pb.HardState, entsnum int) bool
 //@   ensures result <==> (entsnum != 0 || st.Vote != prevst.Vote || st.Term != prevst.Term)
 //@ property C02
+
+//@ property C03 C02
+// ================= MemoryStorage: ents[0] is a dummy entry at the snapshot index =================
+//@ spec msOK(ms *MemoryStorage) bool = ms != nil && len(ms.ents) >= 1 && contig(ms.ents, ms.ents[0].Index) && ms.ents[0].Index + len(ms.ents) < 4611686018427387904
+//@ spec mlast(ms *MemoryStorage) uint64 = ms.ents[0].Index + len(ms.ents) - 1
+//@ spec mterm(ms *MemoryStorage, i uint64) uint64 = ms.ents[i - ms.ents[0].Index].Term
+
+//@ func (ms *MemoryStorage) firstIndex() uint64
+//@   requires msOK(ms)
+//@   ensures result == ms.ents[0].Index + 1
+//@ func (ms *MemoryStorage) lastIndex() uint64
+//@   requires msOK(ms)
+//@   ensures result == mlast(ms)
+
+//@ func (ms *MemoryStorage) Term(i uint64) (uint64, error)
+//@   requires msOK(ms) && i < 4611686018427387904
+//@   ensures i < ms.ents[0].Index ==> result1 == ErrCompacted
+//@   ensures i > mlast(ms) ==> result1 == ErrUnavailable
+//@   ensures ms.ents[0].Index <= i && i <= mlast(ms) ==> result1 == nil && result0 == mterm(ms, i)
+
+//@ func (ms *MemoryStorage) Entries(lo uint64, hi uint64, maxSize uint64) ([]pb.Entry, error)
+//@   requires msOK(ms) && lo <= hi
+//@   ensures lo <= ms.ents[0].Index <==> result1 == ErrCompacted
+//@   ensures result1 == nil ==> hi <= mlast(ms) + 1 && len(result0) <= hi - lo && (lo < hi ==> len(result0) >= 1)
+//@   ensures result1 == nil ==> (forall k int :: 0 <= k && k < len(result0) ==> result0[k].Index == lo + k && result0[k].Term == mterm(ms, lo + k))
+
+// Append: the stored log becomes  (old prefix below entries[0].Index) ++ entries  -- nothing of an
+// overwritten suffix survives, nothing at or below the snapshot index is touched
+//@ func (ms *MemoryStorage) Append(entries []pb.Entry) error
+//@   requires msOK(ms) && (len(entries) >= 1 ==> contig(entries, entries[0].Index) && entries[0].Index >= 1 && entries[0].Index + len(entries) < 4611686018427387904 && ms.ents.arr != entries.arr)
+//@   ensures result == nil && msOK(ms) && ms.ents[0].Index == old(ms.ents[0].Index) && ms.ents[0].Term == old(ms.ents[0].Term)
+//@   ensures (len(entries) == 0 || old(entries[0].Index) + len(entries) - 1 < old(ms.ents[0].Index) + 1) ==> mlast(ms) == old(mlast(ms)) && (forall i uint64 :: ms.ents[0].Index <= i && i <= mlast(ms) ==> mterm(ms, i) == old(mterm(ms, i)))
+//@   ensures len(entries) >= 1 && old(entries[0].Index) + len(entries) - 1 >= old(ms.ents[0].Index) + 1 ==> mlast(ms) == old(entries[0].Index) + len(entries) - 1
+//@   ensures len(entries) >= 1 && old(entries[0].Index) + len(entries) - 1 >= old(ms.ents[0].Index) + 1 ==> (forall i uint64 :: ms.ents[0].Index <= i && i < old(entries[0].Index) ==> mterm(ms, i) == old(mterm(ms, i)))
+//@   ensures len(entries) >= 1 && old(entries[0].Index) + len(entries) - 1 >= old(ms.ents[0].Index) + 1 ==> (forall i uint64 :: max(old(entries[0].Index), ms.ents[0].Index + 1) <= i && i <= mlast(ms) ==> mterm(ms, i) == old(entries[i - entries[0].Index].Term))
+//@   modifies ms.ents, ms.ents[len(ms.ents):cap(ms.ents)]
